@@ -28,8 +28,11 @@ import (
 	"fmt"
 	"hash"
 	"os"
+	"runtime"
 	"runtime/debug"
 	"strings"
+	"sync"
+	"sync/atomic"
 
 	_ "golang.org/x/crypto/blake2b"
 	_ "golang.org/x/crypto/sha3"
@@ -279,6 +282,125 @@ type Mismatch struct {
 var hashes = []crypto.Hash{crypto.SHA1, crypto.SHA224, crypto.SHA256, crypto.SHA384, crypto.SHA512,
 	crypto.SHA3_256, crypto.SHA3_512, crypto.BLAKE2b_256, crypto.BLAKE2b_512}
 
+// vecResult is what judging one vector (one base value with all its presentations) yields.
+type vecResult struct {
+	evals, calls, strict, free, ill int
+	mism                            []Mismatch
+	distinct                        map[string]bool
+	driverErr                       []string
+	samples                         []interface{}
+	counts                          map[string]int // exact number of mismatches per kind
+}
+
+func judge(vec Vector, avail []crypto.Hash) (res vecResult) {
+	res.distinct = map[string]bool{}
+	res.counts = map[string]int{}
+	perKind := map[string]int{}
+	add := func(m Mismatch) {
+		// examples are bounded per vector as well (the merge bounds them again over the whole run)
+		res.counts[m.Kind]++
+		k := m.Kind + "/" + m.Class + "/" + m.Variant
+		if perKind[k] < 5 {
+			perKind[k]++
+			res.mism = append(res.mism, m)
+		}
+	}
+	want := vec.Ver.String()
+	ref := ""         // first observed pre-hash string of this base (classes strict, free)
+	var refPres *Info // and the presentation that gave it
+	haveRef := false
+	for pi := range vec.Pres {
+		p := vec.Pres[pi]
+		res.evals++
+		switch vec.Class {
+		case "strict":
+			res.strict++
+		case "free":
+			res.free++
+		default:
+			res.ill++
+		}
+		for _, va := range variants {
+			mk := func(kind, callName, hn, w, g, pn string) Mismatch {
+				return Mismatch{Kind: kind, Class: vec.Class, Variant: va.name, Call: callName, HashName: hn,
+					Base: vec.Base, Pres: p, Want: w, Got: g, Panic: pn, Ver: vec.Ver, XML: wire(p)}
+			}
+			// 1. the pre-hash string, through both entry points
+			oa, err := call(va.build, p, &recorder{}, true)
+			if err != nil {
+				res.driverErr = append(res.driverErr, va.name+": "+err.Error()+": "+wire(p))
+				continue
+			}
+			oh, _ := call(va.build, p, &recorder{}, false)
+			res.calls += 2
+			if oa.panic != "" || oh.panic != "" {
+				pn, cn := oa.panic, "AppendHash"
+				if pn == "" {
+					pn, cn = oh.panic, "Hash"
+				}
+				add(mk("panic", cn, "recorder", "", "", pn))
+				continue
+			}
+			if oa.out != oh.out {
+				add(mk("hash-vs-append", "Hash", "recorder", oa.out, oh.out, ""))
+			}
+			raw, err := base64.StdEncoding.DecodeString(oa.out)
+			if err != nil {
+				add(mk("not-base64", "AppendHash", "recorder", "", oa.out, ""))
+				continue
+			}
+			got := string(raw)
+			res.distinct[got] = true
+			switch vec.Class {
+			case "strict":
+				if got != want {
+					add(mk("ver", "AppendHash", "recorder", want, got, ""))
+				}
+			}
+			if vec.Class != "ill" {
+				if !haveRef {
+					ref, haveRef = got, true
+					q := p
+					refPres = &q
+				} else if got != ref {
+					m := mk("perm", "AppendHash", "recorder", ref, got, "")
+					m.Ref = refPres
+					add(m)
+				}
+			}
+			// 2. every supported hash function, Hash against AppendHash(nil) and against H(Ver)
+			for _, h := range avail {
+				a, _ := call(va.build, p, h.New(), true)
+				b, _ := call(va.build, p, h.New(), false)
+				res.calls += 2
+				if a.panic != "" || b.panic != "" {
+					add(mk("panic", "Hash", h.String(), "", "", a.panic+b.panic))
+					continue
+				}
+				if a.out != b.out {
+					add(mk("hash-vs-append", "Hash", h.String(), a.out, b.out, ""))
+				}
+				hh := h.New()
+				if vec.Class == "strict" {
+					hh.Write([]byte(want))
+				} else {
+					hh.Write(raw) // consistency of the digest with the observed pre-hash string
+				}
+				w := base64.StdEncoding.EncodeToString(hh.Sum(nil))
+				if a.out != w {
+					add(mk("digest", "AppendHash", h.String(), w, a.out, ""))
+				}
+			}
+			if len(res.samples) < 1 && vec.Class == "strict" && len(p.Forms) > 0 && len(p.IDs) > 1 && pi == len(vec.Pres)-1 {
+				res.samples = append(res.samples, map[string]interface{}{
+					"xml": wire(p), "variant": va.name, "spec_ver": want, "observed_prehash": got, "class": vec.Class,
+					"presentations_of_this_value": len(vec.Pres)})
+			}
+		}
+	}
+	return res
+}
+
 func main() {
 	if len(os.Args) < 4 || os.Args[1] != "run" {
 		fmt.Fprintln(os.Stderr, "usage: caps run <caps_vectors.ndjson> <result.json>")
@@ -303,7 +425,6 @@ func main() {
 	var mism []Mismatch
 	perKind := map[string]int{}
 	add := func(m Mismatch) {
-		counts[m.Kind]++
 		// keep a bounded number of examples per kind and class
 		k := m.Kind + "/" + m.Class + "/" + m.Variant
 		if perKind[k] < 5 {
@@ -316,105 +437,60 @@ func main() {
 	bases, evals, calls, strictN, freeN, illN := 0, 0, 0, 0, 0, 0
 	var driverErr []string
 
+	// The vectors are independent of one another: they are judged by a pool of workers and the
+	// results are merged in the order of the file, so the outcome does not depend on scheduling.
 	rd := bufio.NewReaderSize(f, 1<<20)
 	dec := json.NewDecoder(rd)
+	var vecs []Vector
 	for dec.More() {
 		var vec Vector
 		if err := dec.Decode(&vec); err != nil {
 			panic(err)
 		}
-		bases++
-		want := vec.Ver.String()
-		ref := ""         // first observed pre-hash string of this base (classes strict, free)
-		var refPres *Info // and the presentation that gave it
-		haveRef := false
-		for pi := range vec.Pres {
-			p := vec.Pres[pi]
-			evals++
-			switch vec.Class {
-			case "strict":
-				strictN++
-			case "free":
-				freeN++
-			default:
-				illN++
+		vecs = append(vecs, vec)
+	}
+	results := make([]vecResult, len(vecs))
+	var wg sync.WaitGroup
+	next := int64(-1)
+	nw := runtime.NumCPU()
+	if nw > 16 {
+		nw = 16
+	}
+	for w := 0; w < nw; w++ {
+		wg.Add(1)
+		go func() {
+			defer wg.Done()
+			for {
+				i := int(atomic.AddInt64(&next, 1))
+				if i >= len(vecs) {
+					return
+				}
+				results[i] = judge(vecs[i], avail)
 			}
-			for _, va := range variants {
-				mk := func(kind, callName, hn, w, g, pn string) Mismatch {
-					return Mismatch{Kind: kind, Class: vec.Class, Variant: va.name, Call: callName, HashName: hn,
-						Base: vec.Base, Pres: p, Want: w, Got: g, Panic: pn, Ver: vec.Ver, XML: wire(p)}
-				}
-				// 1. the pre-hash string, through both entry points
-				oa, err := call(va.build, p, &recorder{}, true)
-				if err != nil {
-					driverErr = append(driverErr, va.name+": "+err.Error()+": "+wire(p))
-					continue
-				}
-				oh, _ := call(va.build, p, &recorder{}, false)
-				calls += 2
-				if oa.panic != "" || oh.panic != "" {
-					pn, cn := oa.panic, "AppendHash"
-					if pn == "" {
-						pn, cn = oh.panic, "Hash"
-					}
-					add(mk("panic", cn, "recorder", "", "", pn))
-					continue
-				}
-				if oa.out != oh.out {
-					add(mk("hash-vs-append", "Hash", "recorder", oa.out, oh.out, ""))
-				}
-				raw, err := base64.StdEncoding.DecodeString(oa.out)
-				if err != nil {
-					add(mk("not-base64", "AppendHash", "recorder", "", oa.out, ""))
-					continue
-				}
-				got := string(raw)
-				distinct[got] = true
-				switch vec.Class {
-				case "strict":
-					if got != want {
-						add(mk("ver", "AppendHash", "recorder", want, got, ""))
-					}
-				}
-				if vec.Class != "ill" {
-					if !haveRef {
-						ref, haveRef = got, true
-						q := p
-						refPres = &q
-					} else if got != ref {
-						m := mk("perm", "AppendHash", "recorder", ref, got, "")
-						m.Ref = refPres
-						add(m)
-					}
-				}
-				// 2. every supported hash function, Hash against AppendHash(nil) and against H(Ver)
-				for _, h := range avail {
-					a, _ := call(va.build, p, h.New(), true)
-					b, _ := call(va.build, p, h.New(), false)
-					calls += 2
-					if a.panic != "" || b.panic != "" {
-						add(mk("panic", "Hash", h.String(), "", "", a.panic+b.panic))
-						continue
-					}
-					if a.out != b.out {
-						add(mk("hash-vs-append", "Hash", h.String(), a.out, b.out, ""))
-					}
-					hh := h.New()
-					if vec.Class == "strict" {
-						hh.Write([]byte(want))
-					} else {
-						hh.Write(raw) // consistency of the digest with the observed pre-hash string
-					}
-					w := base64.StdEncoding.EncodeToString(hh.Sum(nil))
-					if a.out != w {
-						add(mk("digest", "AppendHash", h.String(), w, a.out, ""))
-					}
-				}
-				if len(samples) < 3 && vec.Class == "strict" && len(p.Forms) > 0 && len(p.IDs) > 1 && pi == len(vec.Pres)-1 {
-					samples = append(samples, map[string]interface{}{
-						"xml": wire(p), "variant": va.name, "spec_ver": want, "observed_prehash": got, "class": vec.Class,
-						"presentations_of_this_value": len(vec.Pres)})
-				}
+		}()
+	}
+	wg.Wait()
+	for i := range results {
+		r := &results[i]
+		bases++
+		evals += r.evals
+		calls += r.calls
+		strictN += r.strict
+		freeN += r.free
+		illN += r.ill
+		for _, m := range r.mism {
+			add(m)
+		}
+		for k, n := range r.counts {
+			counts[k] += n
+		}
+		for k := range r.distinct {
+			distinct[k] = true
+		}
+		driverErr = append(driverErr, r.driverErr...)
+		for _, sm := range r.samples {
+			if len(samples) < 3 {
+				samples = append(samples, sm)
 			}
 		}
 	}
